@@ -338,7 +338,9 @@ class RecordingLink:
     def serialise_oldest(self):
         pk, owner, snap = self.pending.pop(0)
         w = _wire(pk)
-        if owner == self.owner and owner:
+        if not owner:
+            return                       # a packet of the version negotiation, not of a command
+        if owner == self.owner:
             self.sent.append(w)          # an earlier object of the call in progress
         else:
             # harness-only annotations: of = number of the call that handed the object over, same = the
@@ -358,9 +360,37 @@ class RecordingLink:
         pass
 
 
+def deliver(cf, port, channel, data):
+    """An incoming packet, dispatched as _IncomingPacketHandler.run does: every registered callback whose
+    port/channel pattern matches gets it; an exception inside a callback is logged and swallowed there."""
+    from cflib.crtp.crtpstack import CRTPPacket
+    pk = CRTPPacket()
+    pk.set_header(port, channel)
+    pk.data = data
+    cf.packet_received.call(pk)
+    for cb in [cb for cb in cf.incoming.cb
+               if cb.port == (pk.port & cb.port_mask) and cb.channel == (pk.channel & cb.channel_mask)]:
+        try:
+            cb.callback(pk)
+        except Exception:       # noqa -- as the dispatcher does
+            pass
+
+
+def negotiated(trace, at):
+    """The protocol version negotiated before event `at` (1-based), by the monitor's rule."""
+    ver = trace['ver0']
+    for x in trace['ev'][:at - 1]:
+        if x['e'] == 'ver':
+            ver = x['v']
+        elif x['e'] == 'plat' and x['ch'] == 1 and len(x['d']) >= 2 and x['d'][0] == 0:
+            ver = x['d'][1]
+    return ver
+
+
 def _execute(steps):
     """Run a scenario on a fresh real Crazyflie.  steps: ['ver', v] | ['xmode', b] | ['link', mode] |
-    ['drain'] | ['call', cmd, [encoded args]] | ['hdr', how, port, chan].  Returns the trace dict.
+    ['drain'] | ['plat', channel, [data bytes]] | ['call', cmd, [encoded args]] | ['hdr', how, port, chan].
+    Returns the trace dict.
     Every event carries st = the index of the step that produced it (harness-only)."""
     import cflib.crazyflie as cfm
     from cflib.crtp.crtpstack import CRTPPacket
@@ -374,19 +404,21 @@ def _execute(steps):
     for si, st in enumerate(steps):
         link.step = si
         if st[0] == 'ver':
-            # the firmware's answer to VERSION_GET_PROTOCOL: port 13, channel 1, data (0, version);
-            # version -1 = "not a versioned firmware" arrives through the link-service path
+            # the negotiation as Crazyflie.open_link starts it, answered the way the firmware answers:
+            # link-service source request -> "Bitcraze Crazyflie" -> VERSION_GET_PROTOCOL request on the PLATFORM
+            # port -> answer port 13, channel 1, data (0, version).  version -1 = a firmware without protocol
+            # versioning: another source string, no version request follows
+            cf.platform.fetch_platform_informations(lambda: None)
             if st[1] >= 0:
-                pk = CRTPPacket()
-                pk.set_header(13, 1)
-                pk.data = (0, st[1])
-                cf.platform._platform_callback(pk)
+                deliver(cf, 15, 1, b'Bitcraze Crazyflie')
+                deliver(cf, 13, 1, (0, st[1]))
             else:
-                pk = CRTPPacket()
-                pk.set_header(15, 1)
-                pk.data = b'not a crazyflie...'
-                cf.platform._crt_service_callback(pk)
+                deliver(cf, 15, 1, b'not a crazyflie...')
             ev.append({'e': 'ver', 'v': st[1], 'st': si})
+        elif st[0] == 'plat':
+            # other traffic on the PLATFORM port, through the registered port callbacks
+            deliver(cf, 13, st[1], bytes(st[2]))
+            ev.append({'e': 'plat', 'ch': st[1], 'd': list(st[2]), 'st': si})
         elif st[0] == 'xmode':
             cf.commander.set_client_xmode(st[1])
             ev.append({'e': 'xmode', 'v': bool(st[1]), 'st': si})
@@ -414,8 +446,9 @@ def _execute(steps):
             nq = sum(1 for p in link.pending if p[1] == ncall)
             if out is None:
                 out = 'sent' if (link.sent or nq) else 'none'
+            # pv (harness-only, for the report): the version PlatformService holds after the call
             ev.append({'e': 'call', 'cmd': cmd, 'args': recs, 'out': out, 'pks': link.sent, 'nq': nq, 'exc': exc,
-                       'no': ncall, 'st': si})
+                       'no': ncall, 'st': si, 'pv': int(cf.platform.get_protocol_version())})
             link.owner = 0
             link.sent = []
         elif st[0] == 'hdr':
@@ -634,6 +667,22 @@ def mutant(name):
             if pk.channel == ps.VERSION_COMMAND and pk.data[0] == ps.VERSION_GET_PROTOCOL:
                 self._protocolVersion = pk.data[1] - 1
         patch(ps.PlatformService, '_platform_callback', _platform_callback)
+    elif name == 'version_from_any_version_channel_packet':
+        import cflib.crazyflie.platformservice as ps
+
+        def _platform_callback(self, pk):
+            if pk.channel == ps.VERSION_COMMAND:
+                self._protocolVersion = pk.data[1]
+                self._callback()
+        patch(ps.PlatformService, '_platform_callback', _platform_callback)
+    elif name == 'version_from_any_packet_starting_with_0':
+        import cflib.crazyflie.platformservice as ps
+
+        def _platform_callback(self, pk):
+            if pk.data[0] == ps.VERSION_GET_PROTOCOL and pk.channel != ps.PLATFORM_COMMAND:
+                self._protocolVersion = pk.data[1]
+                self._callback()
+        patch(ps.PlatformService, '_platform_callback', _platform_callback)
     elif name == 'hl_packet_object_kept':
         def _send_packet(self, data):
             pk = self.__dict__.get('_kept_pk')
@@ -693,10 +742,12 @@ MUTANTS = ['lost_pitch_flip', 'thrust_clipped', 'xmode_wrong_rotation', 'legacy_
            'legacy_yaw_not_negated', 'wrong_type_code', 'goto_flags_swapped', 'takeoff_fields_swapped',
            'wrong_width', 'wrong_port', 'wrong_channel', 'header_port_masked', 'quat_component_order',
            'fixed_point_scale', 'int16_wrapped', 'spiral_below_v8_sent', 'version_off_by_one', 'size_check_removed',
-           'hl_packet_object_kept', 'commander_packet_object_kept', 'quat_unit_length_trusted']
+           'hl_packet_object_kept', 'commander_packet_object_kept', 'quat_unit_length_trusted',
+           'version_from_any_version_channel_packet', 'version_from_any_packet_starting_with_0']
 # what the newer mutants need: a link that keeps the packet object / nearly-unit quaternions
 MUTANT_NEEDS = {'hl_packet_object_kept': 'later', 'commander_packet_object_kept': 'later',
-                'quat_unit_length_trusted': 'quat'}
+                'quat_unit_length_trusted': 'quat', 'version_from_any_version_channel_packet': 'plat',
+                'version_from_any_packet_starting_with_0': 'plat'}
 
 
 # --------------------------------------------------------------------------- scenario sources
@@ -1014,6 +1065,73 @@ def laterise(sc, rng, p_drain=0.2):
     return out
 
 
+VERSION_DEPENDENT = ['hover', 'velocity_world', 'zdistance', 'hl_goto', 'hl_spiral']
+
+
+def rnd_plat(rng, ver):
+    """Any packet the firmware may send on the PLATFORM port that is not a new negotiation: every channel, any
+    length and content; a protocol-version answer only as a duplicate of the negotiated one."""
+    ch = rng.randrange(4)
+    n = rng.choice([0, 1, 2, 2, 2, 3, 5, 30])
+    d = [rng.choice([0, 0, 0, 1, 2, 3, 255, rng.randrange(256)])] if n else []
+    d += [rng.choice([0, 1, 3, 7, 8, 9, 10, 200, rng.randrange(256)]) for _ in range(max(0, n - 1))]
+    if ch == 1 and len(d) >= 2 and d[0] == 0:
+        if ver < 0:
+            d[0] = 1                     # (firmware-version answer instead)
+        else:
+            d[1] = ver
+    return ['plat', ch, d]
+
+
+def with_traffic(sc, rng, p=0.3):
+    """The same scenario with other PLATFORM-port traffic arriving between the commands."""
+    out, ver = [], -1
+    for st in sc:
+        if st[0] == 'ver':
+            ver = st[1]
+        if st[0] == 'call' and rng.random() < p:
+            for _ in range(rng.choice([1, 1, 2])):
+                out.append(rnd_plat(rng, ver))
+        out.append(st)
+    return out
+
+
+def plat_scenarios(first_bytes=range(256)):
+    """Systematic: after a negotiation, one PLATFORM-port packet for every channel x first byte (second byte = a
+    version on the other side of both switches), and the short ones; a version-dependent command after each.
+    Deterministic."""
+    pkts = []
+    for ch in range(4):
+        for d0 in first_bytes:
+            pkts.append((ch, [d0]))      # second byte appended below
+        for d in ([], [0], [1], [7]):
+            pkts.append((ch, list(d) + ['short']))
+    scs, cur, n, k = [], None, 0, 0
+    for v in (10, 7):
+        other = 7 if v == 10 else 10
+        for (ch, d) in pkts:
+            if v == 7 and d and d[-1] != 'short' and 16 <= d[0] < 255:
+                continue                  # the other direction: the low first bytes and 255 only
+            if cur is None or n >= 40:
+                cur, n = [['ver', v]], 0
+                scs.append(cur)
+            if d and d[-1] == 'short':
+                data = d[:-1]
+            else:
+                data = d + [other]
+                if ch == 1 and d[0] == 0:
+                    data = [0, v]          # the answer once more: no new negotiation
+                elif k % 7 == 3:
+                    data.append(k % 256)   # longer packets too
+            cur.append(['plat', ch, data])
+            cmd = VERSION_DEPENDENT[k % len(VERSION_DEPENDENT)]
+            cur.append(call_step(cmd, valid_args(cmd, k % 2)))
+            n += 1
+            k += 1
+        cur = None
+    return scs
+
+
 def pair_bursts(cmds, versions=(9,)):
     """Every ordered pair of commands back to back on the "later" link: the second call is made while the
     link still keeps the packet object of the first.  Deterministic."""
@@ -1143,7 +1261,7 @@ def strip(tr):
     """What TLC gets: the events without the harness-only annotations."""
     ev = []
     for e in tr['ev']:
-        e = {k: v for k, v in e.items() if k not in ('exc', 'how', 'st', 'of', 'same', 'no')}
+        e = {k: v for k, v in e.items() if k not in ('exc', 'how', 'st', 'of', 'same', 'no', 'pv')}
         ev.append(e)
     return {'id': tr['id'], 'ver0': tr['ver0'], 'xmode0': tr['xmode0'], 'ev': ev}
 
@@ -1176,11 +1294,9 @@ def signature(trace, clause, at, field):
     e = trace['ev'][at - 1]
     if e['e'] == 'hdr':
         return '%s/header' % clause
-    ver, xm = trace['ver0'], trace['xmode0']
+    ver, xm = negotiated(trace, at), trace['xmode0']
     for x in trace['ev'][:at - 1]:
-        if x['e'] == 'ver':
-            ver = x['v']
-        elif x['e'] == 'xmode':
+        if x['e'] == 'xmode':
             xm = x['v']
     cls = []
     cmd = e['cmd']
@@ -1195,6 +1311,8 @@ def signature(trace, clause, at, field):
         cls.append('repeated-base-station' if dup else 'distinct')
     if field and cmd != 'lh_persist':
         cls.append('field%d' % field)
+    if e.get('pv', ver) != ver:
+        cls.append('stored-version-differs-from-negotiated')
     if any(not x['same'] for x in late_packets(trace, e)):
         # which clause fails first depends on the command that came next: one signature per command
         return 'Emission/%s/object-changed-after-hand-over' % cmd
@@ -1208,9 +1326,13 @@ def late_packets(trace, call_ev):
 
 def context_steps(trace, at):
     ver, xm, lk = trace['ver0'], trace['xmode0'], 'now'
+    plat = []
     for x in trace['ev'][:at - 1]:
         if x['e'] == 'ver':
             ver = x['v']
+            plat = []
+        elif x['e'] == 'plat':
+            plat.append(['plat', x['ch'], list(x['d'])])
         elif x['e'] == 'xmode':
             xm = x['v']
         elif x['e'] == 'link':
@@ -1220,6 +1342,12 @@ def context_steps(trace, at):
         steps.append(['link', lk])
     if ver != -1:
         steps.append(['ver', ver])
+    e = trace['ev'][at - 1]
+    if e.get('pv', None) is not None and e['pv'] != negotiated(trace, at):
+        # the stored version is not the negotiated one: the PLATFORM-port traffic since the negotiation matters
+        # (the last packet that carries the stored value in its second byte is enough when there is one)
+        last = [p for p in plat if len(p[2]) >= 2 and p[2][1] == e['pv']][-1:]
+        steps.extend(last or plat)
     if xm:
         steps.append(['xmode', True])
     return steps
@@ -1275,6 +1403,9 @@ def report_violations(out, bad):
         pyargs = [dec(x) for x in st[2]] if st[0] == 'call' else st[1:]
         detail = {'event': e, 'python_args': repr(pyargs), 'field': field,
                   'version': [s[1] for s in steps if s[0] == 'ver'] or [-1], 'xmode': any(s[0] == 'xmode' for s in steps)}
+        if e['e'] == 'call' and e.get('pv') != negotiated(t, at):
+            detail['negotiated_version'] = negotiated(t, at)
+            detail['version_held_by_PlatformService'] = e.get('pv')
         late = late_packets(t, e) if e['e'] == 'call' else []
         if late:
             detail['link'] = 'keeps the packet object, serialises later (RadioDriver)'
@@ -1284,7 +1415,8 @@ def report_violations(out, bad):
 
 
 # --------------------------------------------------------------------------- the check
-BUGS = ('pitch_sign', 'legacy_threshold', 'thrust_clip', 'goto_order', 'mask_add', 'hl_shared_packet', 'quat_unit_shortcut')
+BUGS = ('pitch_sign', 'legacy_threshold', 'thrust_clip', 'goto_order', 'mask_add', 'hl_shared_packet', 'quat_unit_shortcut',
+        'version_demorgan')
 
 
 def _mc_job(job):
@@ -1303,6 +1435,10 @@ def main(tier, seed, replay=None):
         'wire layouts: tools/crtp-dissector.lua (HL commander structs, port/channel map), Localization._incoming, '
         'docs/user-guides/python_api.md, and the firmware as remembered for the generic setpoint types, '
         'localization types, platform commands, quatcompress.h and LPP (each field of CommandsProps.Layout names its source)',
+        'the negotiated protocol version is the one in the firmware\'s last well-formed answer to the protocol-version request '
+        '(PLATFORM port, channel 1, data (0, v)), or -1 after the link-service answer of a firmware without versioning; it is '
+        'established by running PlatformService.fetch_platform_informations against these answers; any other packet on the '
+        'PLATFORM port negotiates nothing (the harness repeats a version answer only with the negotiated version)',
         'protocol-version thresholds (generic setpoint types 8/9/10 from version 9; go_to_2 and spiral from version 8) '
         'are firmware facts taken from memory',
         "struct.pack('<f', argument) in the harness is the trusted float32 rounding of the argument; NaN matches any NaN, "
@@ -1333,7 +1469,7 @@ def main(tier, seed, replay=None):
         out.add_tlc(cfg, tlc.check('MC_Commands.tla', cfg, timeout=3000))
     # the link that keeps the packet object: Build / Hand / Ser interleavings, two calls in flight
     dcfg = 'MC_Commands_defer.cfg' if tier == 'quick' else 'MC_Commands_defer_thorough.cfg'
-    jobs = [('check', 'MC_Commands_dup.cfg'), ('check', dcfg)] + [('refute', 'MC_Commands_bug_%s.cfg' % b) for b in BUGS]
+    jobs = [('check', 'MC_Commands_dup.cfg'), ('check', dcfg), ('check', 'MC_Commands_plat.cfg')] + [('refute', 'MC_Commands_bug_%s.cfg' % b) for b in BUGS]
     for (kind, c), r in zip(jobs, common.pmap(_mc_job, jobs, nproc=4, chunksize=1)):
         if kind == 'check':
             out.add_tlc(c, r)
@@ -1346,17 +1482,21 @@ def main(tier, seed, replay=None):
                             seed=seed % 100000, timeout=1800)
     out.add_tlc('SIM_Commands.cfg (-simulate)', rs)
     sim_scs, sim_exp = [], []
-    n_later = 0
+    n_later = n_plat = 0
     for beh in behs:
         sc, exp = [], []
         open_call, open_sers = None, []      # Build seen, Hand not yet: the call runs when Hand is reached
         for label, st in beh[1:]:
             name = label.split('(')[0].strip()
-            args = tlc.parse_label(label)[1] if name in ('SetVersion', 'SetXMode', 'MakeHeader', 'SetLink') else []
+            args = tlc.parse_label(label)[1] if name in ('SetVersion', 'SetXMode', 'MakeHeader', 'SetLink',
+                                                          'PlatformPacket') else []
             if name == 'SetVersion':
                 sc.append(['ver', args[0]])
             elif name == 'SetXMode':
                 sc.append(['xmode', args[0]])
+            elif name == 'PlatformPacket':
+                sc.append(['plat', args[0], list(args[1])])
+                n_plat += 1
             elif name == 'SetLink':
                 sc.append(['link', args[0]])
                 n_later += args[0] == 'later'
@@ -1410,6 +1550,7 @@ def main(tier, seed, replay=None):
         'graph_states_driven': len(gcalls), 'graph_matched': ok1,
         'simulated_behaviours': len(sim_scs), 'simulated_steps': n2, 'simulated_matched': ok2,
         'simulated_switches_to_a_link_that_keeps_the_object': n_later,
+        'simulated_other_platform_port_packets': n_plat,
         'mismatches_by_command': _by_cmd([e for (e, _x) in badg + bads]),
         'first_mismatches': [{'cmd': e.get('cmd'), 'got': {'out': e.get('out'), 'pks': e.get('pks'), 'h': e.get('h')},
                               'spec': x} for (e, x) in (badg + bads)[:3]]}
@@ -1422,9 +1563,12 @@ def main(tier, seed, replay=None):
     r_scs = chunked(random_calls(rng, nrand), rng)
     # every third scenario runs on a link that keeps the packet objects and serialises them later
     # (RadioDriver); plus every ordered pair of commands back to back on such a link
-    e_scs = [laterise(sc, rng) if i % 3 == 1 else sc for i, sc in enumerate(e_scs)]
-    r_scs = [laterise(sc, rng) if i % 3 == 1 else sc for i, sc in enumerate(r_scs)]
-    p_scs = pair_bursts(CMDS) + pair_bursts([c for c in CMDS if c.startswith('hl_')], (7,))
+    # another third gets other PLATFORM-port traffic between the commands (the version was negotiated through the
+    # real PlatformService; nothing but a protocol-version answer may change it), plus one packet per channel x
+    # first byte, each followed by a version-dependent command
+    e_scs = [laterise(sc, rng) if i % 3 == 1 else with_traffic(sc, rng) if i % 3 == 2 else sc for i, sc in enumerate(e_scs)]
+    r_scs = [laterise(sc, rng) if i % 3 == 1 else with_traffic(sc, rng) if i % 3 == 2 else sc for i, sc in enumerate(r_scs)]
+    p_scs = plat_scenarios() + pair_bursts(CMDS) + pair_bursts([c for c in CMDS if c.startswith('hl_')], (7,))
     e_traces, h_traces, r_traces, p_traces = run(e_scs), run(h_scs), run(r_scs), run(p_scs)
     all_traces = g_traces + sim_traces + e_traces + h_traces + r_traces + p_traces
     bad, drift = judge(out, all_traces, 'real code')
@@ -1468,6 +1612,8 @@ def main(tier, seed, replay=None):
                 'seeded random arguments (any float32 bit pattern, doubles that need rounding, boundary ints, nearly-unit quaternions); '
                 'links: one that serialises inside send_packet and one that keeps the packet object (queue of %d, as RadioDriver) -- '
                 'every third scenario and all %d ordered pairs of commands back to back run on the latter; '
+                'other PLATFORM-port traffic between the commands in another third of the scenarios and systematically '
+                '(4 channels x 256 first bytes + short packets, each followed by a version-dependent command, negotiated 10 and 7); '
                 'distinct = distinct (context incl. link kind, case) tuples'
                 % (len(SPECIAL_FLOATS), len(QUATS) - 1 + len(QUAT_TIES), len(QUAT_FACTORS), CAP, len(CMDS) ** 2))
     pick = [t for t in (e_traces[:1] + r_traces[:1] + h_traces[:1])]
@@ -1478,6 +1624,7 @@ def main(tier, seed, replay=None):
     bad_ids = {id(t) for (t, _c, _a, _f) in bad}
     sub = sensitivity_scenarios(enumerated_calls('quick'), rng)       # the same slice in both tiers
     sub_need = {
+        'plat': plat_scenarios((0, 1, 2, 5, 255)),
         'later': pair_bursts([c for c in CMDS if c.startswith('hl_')] + ['position', 'stop_setpoint', 'extpos']),
         'quat': chunked([(9, False, call_step('full_state', [0.0] * 9 + q + [0.0] * 3))
                          for q in near_unit_quats()[::3]], rng)}
@@ -1505,12 +1652,19 @@ def main(tier, seed, replay=None):
     t4['ev'][idx]['pks'][0]['h'] ^= 0x10
     t4['tag'] = 'binding:header-port-bit-flipped'
     # a recording from the link that keeps the objects: the bytes serialised later replaced by the next call's
-    t5 = copy.deepcopy(next(t for t in p_traces if id(t) not in bad_ids))
+    t5 = copy.deepcopy(next(t for t in p_traces if id(t) not in bad_ids
+                            and sum(1 for e in t['ev'] if e['e'] == 'ser') > 3))
     sers = [e for e in t5['ev'] if e['e'] == 'ser']
     k = next(i for i in range(len(sers) - 1) if sers[i]['pk'] != sers[i + 1]['pk'])
     sers[k]['pk'] = copy.deepcopy(sers[k + 1]['pk'])
     t5['tag'] = 'binding:late-packet-carries-the-next-command'
-    sens += [t1, t2, t3, t4, t5]
+    # a recording with PLATFORM-port traffic: one stray packet turned into a protocol-version answer for the other
+    # version -- the commands after it were encoded for the version really negotiated
+    t6 = copy.deepcopy(next(t for t in p_traces if id(t) not in bad_ids and any(e['e'] == 'plat' for e in t['ev'])))
+    pe = next(e for e in t6['ev'] if e['e'] == 'plat' and len(e['d']) >= 2 and not (e['ch'] == 1 and e['d'][0] == 0))
+    pe['ch'], pe['d'] = 1, [0, pe['d'][1]]
+    t6['tag'] = 'binding:stray-packet-recorded-as-version-answer'
+    sens += [t1, t2, t3, t4, t5, t6]
     sbad, sdrift = judge(out, sens, 'mutants and corrupted recordings', count=False)
     rej, drf, tot = {}, {}, {}
     for t in sens:
